@@ -28,6 +28,7 @@ type c17World struct {
 	u        *schema.Universe
 	client   *restli.Client
 	clients  map[string]reflect.Value
+	tclients map[string]reflect.Value // the same clients with query tunnelling forced on
 	handler  http.Handler
 	mu       sync.Mutex
 	log      map[int][]string // per thread: what resource code / filters / the wire saw
@@ -142,8 +143,12 @@ func newC17World(u *schema.Universe, free bool) *c17World {
 	w.handler = srv.Handler()
 	bu, _ := url.Parse("http://h")
 	w.client = &restli.Client{Client: &http.Client{Transport: &c17Transport{w}}, HostnameResolver: &restli.SimpleHostnameResolver{Hostname: bu}, StrictResponseDeserialization: true}
+	tc := *w.client
+	tc.QueryTunnellingThreshold = 1
+	w.tclients = map[string]reflect.Value{}
 	for _, r := range u.Resources {
 		w.clients[r.Namespace] = reflect.ValueOf(Bindings[r.Namespace].NewClient(w.client))
+		w.tclients[r.Namespace] = reflect.ValueOf(Bindings[r.Namespace].NewClient(&tc))
 	}
 	return w
 }
@@ -319,7 +324,42 @@ func c17Requests(u *schema.Universe) []c17Req {
 			sl := reflect.ValueOf([]string{"a", "b"})
 			return call(w, t, cs, "BatchGet", sl)
 		}},
-		{"get(%2F(:)", func(w *c17World, t int) string { return call(w, t, cs, "Get", schema.VS(strT, "%2F(:")) }},
+		// a tunnelled request with a body (client with tunnelling threshold 1: query + entity travel in a
+		// multipart envelope); entity and parameter name the calling thread
+		{"tunnelledUpdateWithParams(k6)", func(w *c17World, t int) string {
+			var cp *schema.Resource
+			for _, r := range u.Resources {
+				if r.Name() == "cParams" {
+					cp = r
+				}
+			}
+			pt := ParamsType(cp.Method("update"), "")
+			m := w.tclients[cp.Namespace].MethodByName("UpdateWithContext")
+			ctx := restli.ExtraRequestHeaders(context.Background(), func() (http.Header, error) {
+				return http.Header{"X-Verif-Thread": []string{fmt.Sprint(t)}}, nil
+			})
+			in := []reflect.Value{reflect.ValueOf(ctx), reflect.ValueOf("k6"),
+				toGo(entity(fmt.Sprintf("tun-of-thread-%d", t)), m.Type().In(2)),
+				toGo(schema.Base(pt).With("reason", schema.VS(strT, fmt.Sprintf("tun-of-thread-%d", t))), m.Type().In(3))}
+			var outs []reflect.Value
+			func() {
+				defer func() {
+					if p := recover(); p != nil {
+						outs = []reflect.Value{reflect.ValueOf(fmt.Sprintf("CLIENT PANIC %v", p))}
+					}
+				}()
+				outs = m.Call(in)
+			}()
+			var parts []string
+			for _, o := range outs {
+				if o.Type().Implements(errorType()) && !o.IsNil() {
+					parts = append(parts, "error: "+o.Interface().(error).Error())
+				} else {
+					parts = append(parts, fmt.Sprint(derefAll(o)))
+				}
+			}
+			return strings.Join(parts, " | ")
+		}},
 		// a REST method with query parameters of its own (the parameters name the calling thread)
 		{"getWithParams(k5)", func(w *c17World, t int) string {
 			var cp *schema.Resource
@@ -362,6 +402,7 @@ func isolatedOutcomes(u *schema.Universe, reqs []c17Req) map[string]string {
 func normalise(out string, tid int) string {
 	// thread ids appear in the logs (header echo): make outcomes comparable with the isolated run
 	out = strings.ReplaceAll(out, fmt.Sprintf("viewer-of-thread-%d", tid), "viewer-of-thread-T")
+	out = strings.ReplaceAll(out, fmt.Sprintf("tun-of-thread-%d", tid), "tun-of-thread-T")
 	return strings.ReplaceAll(strings.ReplaceAll(out, fmt.Sprintf("post=\"%d\"", tid), "post=\"T\""), fmt.Sprintf("X-Verif-Thread:[%d]", tid), "")
 }
 
